@@ -24,6 +24,15 @@ def build():
     common.declare_events(C)
     C.cls("Logger", fields={})
     C.ext("Logger.info", model=common.noop, trusted_reason="logging")
+    # the composition of the game-side contracts (C06 P1-P4, re-checked as C20b) with the credits handlers, natively: one
+    # credit and two start presses in the same instant admit ONE player (finite check, the history fixed in c3a53ba)
+    C.finite_checks.append(common.native_demo_check(
+        "c20_two_adds_one_credit.py",
+        "two player-add requests posted back to back are judged one after the other: one credit pays for one player"))
+    C.finite_checks.append(common.native_demo_check(
+        "c20_double_enable_credit_play.py", "a redundant enable_credit_play leaves ONE handler per coin switch"))
+    C.finite_checks.append(common.native_demo_check(
+        "c20_boot_free_play_then_coin.py", "a machine booted in free play has a price once credit play is enabled"))
 
     # ---- assumed components -------------------------------------------------------------
     C.cls("Template", fields={})
@@ -597,7 +606,7 @@ def build_extra():
     c06 = C06.build()
     c06.pid = "C20b"
     c06.replay_pid = "C06"
-    c06.only_verify = ["Game._player_add_request_complete", "Game.request_player_add"]
+    c06.only_verify = ["Game._player_add_request_complete", "Game.request_player_add", "Game._player_adding_complete"]
     # free_play is a setting: it is read from its machine variable on every access, also when the stored value is falsy
     # (credit play = False) (C16's settings contract SV1, restricted)
     from . import C16
